@@ -392,6 +392,24 @@ def D6(m, R):
     if src:
         ok = any(isinstance(n, ast.Assign) and norm(n.targets[0]) == '%s.%s' % (f.self_name, TEXT) and norm(n.value) == '%s.%s' % (src, TEXT) for n in f.walk())
         R.check(ok, f, f.node, 'the copy constructor takes the source\'s text', construct='__init__ text copy')
+    # the settings given to the constructor are applied as one list: adjacent integers form one multi-code group (38, 5, 100) only inside one
+    # call of the scrubber, and a falsy element (the int 0) is a setting of its own only inside a list
+    if f.vararg:
+        calls_ = [n for n in f.walk() if isinstance(n, ast.Call) and call_name(n) == 'apply_formatting' and is_name(getattr(n.func, 'value', None), f.self_name) and n.args]
+        cons_ = '__init__ settings as one list'
+        if not calls_:
+            R.undecided(f, f.node, 'the constructor does not call apply_formatting', construct=cons_)
+        else:
+            whole_ = [c for c in calls_ if norm(c.args[0]) in (f.vararg, 'list(%s)' % f.vararg, 'tuple(%s)' % f.vararg)]
+            per_elem = [c for c in calls_ if any(isinstance(p_, ast.For) and norm(p_.iter) == f.vararg and norm(p_.target) == norm(c.args[0]) for p_ in _parents(c))]
+            if whole_ and not per_elem:
+                R.ok(f, whole_[0], 'all positional settings reach apply_formatting together (%s)' % short(whole_[0]), construct=cons_)
+            elif per_elem:
+                R.viol(f, per_elem[0], 'each positional setting is applied by a call of its own (%s in a loop over %s): AnsiString("x", 38, 5, 100) gives three settings 38, 5, 100 '
+                                       'instead of the one group 38;5;100 that the list [38, 5, 100] gives, and AnsiString("x", 0) applies nothing (a falsy setting is ignored)'
+                       % (short(per_elem[0]), f.vararg), construct=cons_)
+            else:
+                R.undecided(f, calls_[0], 'how the positional settings reach apply_formatting is not recognised: %s' % short(calls_[0]), construct=cons_)
     # is_optimizable = is_formatting_parsable
     f = fn('is_optimizable')
     expr, ret = single_return(f)
